@@ -67,6 +67,20 @@ def run(ctx) -> list[Inst]:
                 txt = stmt_text(n.test, 400)
                 if sides(txt):
                     tests.append((n, norm(n.test), txt))
+        # (b') the same inference written as a conditional expression: `x = R if <asset on the left> else L`
+        for n in own_nodes(f.node):
+            if isinstance(n, ast.IfExp):
+                ttxt = stmt_text(n.test, 400)
+                tested = sides(ttxt)
+                used = sides(stmt_text(n.orelse, 400))
+                member = ' in ' in ttxt or 'is_subasset_of' in ttxt
+                if len(tested) == 1 and used and member and not isinstance(n.orelse, ast.IfExp):
+                    insts.append(Inst(
+                        RULE, fname, f'(b) orientation is tested, not inferred: else of {ttxt[:70]}', 'violation',
+                        msg=(f"'{stmt_text(n, 160)}' takes the {sorted(used)}-side value only because the "
+                             f"{sorted(tested)}-side test failed: for an asset on both sides of a self-association one "
+                             f"direction is never reported; for an asset on neither side a wrong side is used"),
+                        file=rel, line=n.lineno, props=props))
         if not tests:
             insts.append(Inst(RULE, fname, 'orientation tests', 'unproven',
                               msg='no test distinguishing left/right found', file=rel, line=f.node.lineno,
@@ -117,6 +131,7 @@ def run(ctx) -> list[Inst]:
                 if not name_cj:
                     continue
                 construct_c = f'(c) field navigation tests the source on the opposite side: {txt[:80]}'
+                unproven_c = False
                 ok = True
                 why = ''
                 for c in name_cj:
@@ -127,10 +142,29 @@ def run(ctx) -> list[Inst]:
                     src = [x for x in cj if x is not c and opp in sides(x) and
                            ('is_subasset_of' in x or ' in ' in x)]
                     if not src:
+                        # the source test may sit in a nested `if` of this branch ...
+                        nested = [x for b in n.body for x in ast.walk(b) if isinstance(x, ast.If)]
+                        if any(opp in sides(stmt_text(x.test, 300)) and
+                               ('is_subasset_of' in stmt_text(x.test, 300) or ' in ' in stmt_text(x.test, 300))
+                               for x in nested):
+                            continue
+                        # ... or the side may be carried in a variable (`opposite = left if ... else right`) and
+                        # tested through it: orientation no longer visible in the spelling -> not decided
+                        neutral = [x for x in own_nodes(f.node) if isinstance(x, (ast.If, ast.IfExp))
+                                   and not sides(stmt_text(x.test, 300))
+                                   and ('is_subasset_of' in stmt_text(x.test, 300) or ' in ' in stmt_text(x.test, 300))
+                                   and ('getattr' in stmt_text(x.test, 300) or 'field' in stmt_text(x.test, 300))]
+                        if neutral:
+                            unproven_c = True
+                            continue
                         ok = False
                         why = (f"'{c}' selects the {next(iter(sd))} field by name, but nothing in the same test "
                                f"checks that the source asset/type sits on the {opp} side")
-                if ok:
+                if ok and unproven_c:
+                    insts.append(Inst(RULE, fname, construct_c, 'unproven',
+                                      msg='the side is carried in a variable; the source test is not spelled per side',
+                                      file=rel, line=n.lineno, props=props))
+                elif ok:
                     insts.append(Inst(RULE, fname, construct_c, 'ok', file=rel, line=n.lineno, props=props))
                 else:
                     insts.append(Inst(
@@ -142,13 +176,18 @@ def run(ctx) -> list[Inst]:
     rel = f.module.relpath
     found = False
     for n in own_nodes(f.node):
-        if isinstance(n, ast.Call) and isinstance(n.func, ast.Name) and n.func.id == 'next' and n.args \
-                and isinstance(n.args[0], ast.GeneratorExp):
+        if isinstance(n, ast.Call) and isinstance(n.func, ast.Name) and n.func.id in ('next', 'any') and n.args \
+                and isinstance(n.args[0], (ast.GeneratorExp, ast.ListComp)):
             g = n.args[0].generators[0]
-            if 'associations' not in stmt_text(g.iter) or not g.ifs:
+            if 'associations' not in stmt_text(g.iter):
+                continue
+            if n.func.id == 'any' and not g.ifs:
+                cond = n.args[0].elt          # any(<condition> for assoc in self.associations)
+            elif g.ifs:
+                cond = g.ifs[0] if len(g.ifs) == 1 else ast.BoolOp(op=ast.And(), values=list(g.ifs))
+            else:
                 continue
             found = True
-            cond = g.ifs[0] if len(g.ifs) == 1 else ast.BoolOp(op=ast.And(), values=list(g.ifs))
             cj = conjuncts(cond)
             txts = [' '.join(stmt_text(c, 300).split()) for c in cj]
             pure = all(isinstance(c, ast.Compare) and len(c.ops) == 1 and isinstance(c.ops[0], (ast.Eq, ast.Is))
